@@ -2,3 +2,28 @@
 #[verifier::external_body]
 pub fn vx_panic() -> ! requires false { loop { } }
 pub fn vx_assert(c: bool) requires c {}
+
+/// ghost: number of bytes actually received from the peer on this connection so far
+pub uninterp spec fn vx_received() -> nat;
+/// allocations sized by untrusted input must stay within received bytes + this constant (64 KiB = wire::Size::MAX + 1)
+pub const VX_ALLOC_SLACK: usize = 65536;
+/// ASSUMED (alloc): `vec![e; n]` allocates `n` elements; the precondition is the C14 allocation budget.
+#[verifier::external_body]
+pub fn vx_alloc_vec<T: Clone>(e: T, n: usize) -> (v: Vec<T>)
+    requires n <= vx_received() + VX_ALLOC_SLACK
+    ensures v@.len() == n, forall|i: int| 0 <= i < n ==> v@[i] == e
+{ std::vec::from_elem(e, n) }
+
+/// ASSUMED (alloc): Vec::with_capacity(n) allocates room for n elements; same budget precondition.
+#[verifier::external_body]
+pub fn vx_vec_with_capacity<T>(n: usize) -> (v: Vec<T>)
+    requires n <= vx_received() + VX_ALLOC_SLACK
+    ensures v@.len() == 0
+{ Vec::with_capacity(n) }
+
+/// ASSUMED (core): the reflexive `impl<T> From<T> for T` is the identity.
+#[verifier::external_body]
+pub proof fn std_from_refl<T>()
+    ensures <T as vstd::std_specs::convert::FromSpec<T>>::obeys_from_spec(),
+        forall|a: T| #[trigger] <T as vstd::std_specs::convert::FromSpec<T>>::from_spec(a) == a
+{}
